@@ -5963,7 +5963,13 @@ int32 psX509AuthenticateCert(psPool_t *pool, psX509Cert_t *subjectCert,
     }
     else
     {
-        issuerCert->authStatus = PS_FALSE;
+        /* The issuer is usually a trust anchor shared by every session that
+           uses the same keys: do not write to it unless there is something
+           to reset. */
+        if (issuerCert->authStatus != PS_FALSE)
+        {
+            issuerCert->authStatus = PS_FALSE;
+        }
         ic = issuerCert; /* Easy case of single subject and single issuer */
         sc = subjectCert;
     }
